@@ -21,7 +21,7 @@ func init() {
 		Title: "Interrupts and abnormal exits: prompt delivery, clean unwind, reusable runtime",
 		Rule: fmt.Sprintf("programs = every nesting (quick: depth 1, thorough: depth <= 2; throw family: depth <= 2 in both tiers) of the %d context wrappers around each body; ", len(wrappers)) +
 			"one case = (program, injection): interrupt families inject at EVERY evaluation step k of the program (non-terminating bodies: k <= 60 quick, k <= 200 / 100 at depth 1 / 2 thorough), " +
-			"hostpanic at every tick call x 4 payloads, throw/limits have one case per program / grid point; limits-mixed = every sequence (length <= 4 quick, <= 5 thorough) over {call, direct eval, call trampoline, indirect eval} x L 0..9 against the order-independent unit model; limits-entry = 23 Go-side entry routes at rest x L 0..5 x d around the threshold, each followed by rest-state and threshold-unmoved probes; headroom = 25 parse-failure / eval-abort histories x L x {1,2,L} repetitions x {Run, Otto.Eval}, each followed by the remaining-depth vector on the runtime and on a Copy (must equal a fresh runtime's); every follow-up program of the other families also ends with a one-run headroom probe under limit 8; interrupt-value = 10 panic values of the interrupt function x depth-1 wrappers x every step k; unbuffered = capacity-0 channel with a sender goroutine parked in the send before Run and at every step k; entry = 11 API entry routes x 4 channel-installation times x {pre-queued, every step k} x {panic, record}. Each case runs on a fresh runtime " +
+			"hostpanic at every tick call x 4 payloads, throw/limits have one case per program / grid point; limits-mixed = every sequence (length <= 4 quick, <= 5 thorough) over {call, direct eval, call trampoline, indirect eval} x L 0..9 against the order-independent unit model; limits-entry = 23 Go-side entry routes at rest x L 0..5 x d around the threshold, each followed by rest-state and threshold-unmoved probes; headroom = 25 parse-failure / eval-abort histories x L x {1,2,L} repetitions x {Run, Otto.Eval}, each followed by the remaining-depth vector on the runtime and on a Copy (must equal a fresh runtime's); every follow-up program of the other families also ends with a one-run headroom probe under limit 8; halt-followup = 5 halt values x 2 histories x 11 entry routes x 5 host-function panic kinds, compared with the model and a fresh runtime; interrupt-value = 15 panic values (8 in quick, comparable and uncomparable) of the interrupt function x depth-1 wrappers x every step k; unbuffered = capacity-0 channel with a sender goroutine parked in the send before Run and at every step k; entry = 11 API entry routes x 4 channel-installation times x {pre-queued, every step k} x {panic, record}. Each case runs on a fresh runtime " +
 			"(plus a follow-up program and a second injected run on the same runtime). A case is non-trivial when the injection lands while the " +
 			"runtime is not at global level (a function/native frame, a pending label or a try/catch block is active at step k) or, for the " +
 			"throw/hostpanic/limits families, when the abnormal exit crosses at least one wrapper frame.",
@@ -31,6 +31,7 @@ func init() {
 			{Name: "limits-mixed", Run: runLimitsMixed},
 			{Name: "limits-entry", Run: runLimitsEntry},
 			{Name: "headroom", Run: runHeadroomFamily},
+			{Name: "halt-followup", Run: runHaltFollowup},
 			{Name: "entry", Run: runEntryFamily},
 			{Name: "unbuffered", Run: runUnbufferedFamily},
 			{Name: "throw", Run: runThrow},
@@ -57,6 +58,7 @@ func init() {
 	engine.RegisterSignature("c18-rethrown-error-in-try", sigRethrownErrorInTry)
 	engine.RegisterSignature("c18-interrupt-primitive-caught", sigInterruptPrimitiveCaught)
 	engine.RegisterSignature("c18-eval-units-ignored-by-frames", sigEvalUnitsIgnoredByFrames)
+	engine.RegisterSignature("c18-halt-dropped-by-uncaught-string", sigHaltDroppedByUncaughtString)
 }
 
 // convText is how tryCatchEvaluate's toValue(caught) fails for a panic value it
@@ -258,7 +260,32 @@ func foreignAux(kind string, e *exec, deliveredOK, inTry bool) map[string]string
 	if strings.HasPrefix(errText(e.out.err), convText) || strings.Contains(e.final, "s:T:"+convText) || strings.Contains(logString(e.log), "hosterr:"+convText) {
 		a["conv_seen"] = "1"
 	}
+	a["in_uncaught"] = b01(e.delivUnc)
+	a["dropped_text"] = b01(droppedByUncaughtString(e))
 	return a
+}
+
+// uncaughtDropText is the error Run returns when error.go's uncaughtString
+// recovered a panic raised while it converted an uncaught thrown value.
+const uncaughtDropText = "uncaught exception (the thrown value cannot be converted to a string)"
+
+// droppedByUncaughtString: the fallback text is what the API entry point reported -
+// Run itself, or the nested Otto.Call / Value.Call / Otto.Eval / Otto.Run of a host
+// wrapper (which logs the error it got and lets the script go on).
+func droppedByUncaughtString(e *exec) bool {
+	return errText(e.out.err) == uncaughtDropText || strings.Contains(logString(e.log), "hosterr:"+uncaughtDropText)
+}
+
+// sigHaltDroppedByUncaughtString accepts exactly: a foreign Go panic (interrupt
+// function or host function) was raised while an API entry point was converting
+// an uncaught thrown value to text (uncaughtString on the stack); delivery was
+// correct; Run did not panic; the API entry point that was rendering the value (Run,
+// or the nested entry point of a host function, which then carries on) reported
+// uncaughtString's fallback text; and the runtime is at rest.
+func sigHaltDroppedByUncaughtString(m *engine.Mismatch) bool {
+	a := m.Aux
+	return a != nil && (a["kind"] == "interrupt-panic" || a["kind"] == "interrupt-value" || a["kind"] == "hostpanic-goerror") &&
+		a["in_uncaught"] == "1" && a["delivered"] == "ok" && a["panicked"] == "0" && a["dropped_text"] == "1" && a["rest"] == "clean"
 }
 
 func b01(b bool) string {
@@ -314,13 +341,16 @@ func runInterruptRecord(r *engine.Run) {
 
 // --------------------------- (iii) host function panics ---------------------
 
-var hostPanicBodies = []body{bodyAsg}
+var hostPanicBodies = []body{bodyAsg, bodyThrowTS}
 
 func runHostPanic(r *engine.Run) {
 	r.Bound("payloads", strings.Join(payloadNames, ","))
 	forPrograms(r, hostPanicBodies, true, true, func(p *prog, ref *refRun) {
 		for j := 1; j <= len(ref.tickSnap); j++ {
 			for pay := 0; pay < nPayloads; pay++ {
+				if p.body.name == bodyThrowTS.name && pay != payGoError {
+					continue // the wrapper model does not cover this body; a Go error is foreign wherever it is raised
+				}
 				key := fmt.Sprintf("%s|iii|%d.%s", p.key, j, payloadNames[pay])
 				if !wantCase(r, key) {
 					continue
@@ -343,7 +373,12 @@ func checkHostPanic(r *engine.Run, p *prog, ref *refRun, j, pay int, key string)
 	goErr := errors.New("c18 host error")
 	e := s.run(injection{mode: modeHostPanic, tickJ: j, payload: pay}, goErr, stepCapFor(p, ref))
 	r.Eval(true)
-	m := runModel(p, bodyInj{tickJ: j, payload: pay})
+	var m modelOut
+	if p.body.name == bodyThrowTS.name {
+		m = modelOut{outcome: "panic:foreign"}
+	} else {
+		m = runModel(p, bodyInj{tickJ: j, payload: pay})
+	}
 	what := fmt.Sprintf("tick call %d panics with %s", j, payloadNames[pay])
 
 	var exp, obs string
@@ -355,10 +390,11 @@ func checkHostPanic(r *engine.Run, p *prog, ref *refRun, j, pay int, key string)
 		if pay == payString {
 			sentinel = "boom"
 		}
-		exp = describe(want, "n/a", 0, 0, restClean, ref.tickSnap[j-1], logString(m.log))
+		exp = describe(want, "n/a", 0, 0, restClean, ref.tickSnap[j-1], logString(ref.log[:ref.tickLog[j-1]]))
 		obs = describe(e.out.outcome(sentinel), "n/a", e.stepsAfter, e.hostAfter, e.rest(), e.final, logString(e.log))
 		if pay == payGoError {
 			aux = foreignAux("hostpanic-goerror", e, true, ref.tickTCE[j-1])
+			aux["in_uncaught"] = b01(ref.tickUnc[j-1])
 		}
 	} else {
 		// a JavaScript exception (or a string panic converted by a script try): the wrapper model predicts the rest
